@@ -33,3 +33,16 @@ func TestF66_VeryLongLifetimeDoesNotWrapIntoThePast(t *testing.T) {
 		t.Fatalf("data lost: %v", s2.Get("k"))
 	}
 }
+
+// F67 (C08): a sub-app mounted through a group whose prefix was written without its leading slash is routed
+// under "/v1/john" but was recorded under "v1/john" — no request path starts with that, the sub-app's
+// error handler was never chosen (the sibling of F55, which repaired App.mount only).
+func TestF67_GroupMountPrefixWithoutLeadingSlash(t *testing.T) {
+	sub := fiber.New(fiber.Config{ErrorHandler: func(c fiber.Ctx, _ error) error { return c.Status(500).SendString("sub") }})
+	sub.Get("/doe", func(fiber.Ctx) error { return fiber.ErrTeapot })
+	app := fiber.New(fiber.Config{ErrorHandler: func(c fiber.Ctx, _ error) error { return c.Status(500).SendString("root") }})
+	app.Group("v1").Use("/john", sub)
+	if got := string(do(app, "GET", "/v1/john/doe").Response.Body()); got != "sub" {
+		t.Fatalf("error raised in the sub-app mounted with Group(\"v1\").Use(\"/john\", sub) was handled by %q", got)
+	}
+}
